@@ -8,7 +8,7 @@ correspondence: in-process round trip: the REAL pcp_expand_dirs()+pcp_client() i
                 stream, the reply classes and the complete destination file system are compared with
                 `pdshmodel pcp rt` (sender model + receiver model)
                 several receivers in ONE process (rpdcp): K real pcp_server() calls as threads, all connections open at
-                once, input interleaved chunk-wise, in half of the cases with two _error() calls forced to overlap (one
+                once, input interleaved chunk-wise, in some cases with the umask(2) calls at the start of two receivers interleaved, in others with two _error() calls forced to overlap (one
                 receiver parked between fdopen and errf until another has reported an error); replies per connection and the joint destination = one model run per
                 connection (theorems receivers_independent / receiver_alone state the product automaton)
 oracle:         (receivers are independent) the replies on each of the K connections equal those of the same real receiver
@@ -61,6 +61,7 @@ class Node:
     def __init__(self, name, kind, mode, mtime, nsec=0, gen=None, kids=None):
         self.name, self.kind, self.mode, self.mtime, self.nsec, self.gen, self.kids = name, kind, mode, mtime, nsec, gen, kids
         self.atime = 0
+        self.link = None       # symbolic link to this sibling name: the node carries what stat(2) sees through it
 
 
 def gen_tree(rng, name, depth, budget, want_dir=None, big_ok=True):
@@ -86,7 +87,9 @@ def gen_tree(rng, name, depth, budget, want_dir=None, big_ok=True):
 def materialize(base, node, future):
     """create on disk below directory `base` (bytes); returns nothing; metadata set afterwards (post-order)"""
     p = base + b"/" + node.name
-    if node.kind == "d":
+    if node.link:
+        os.symlink(node.link, p)
+    elif node.kind == "d":
         os.mkdir(p)
         for k in node.kids:
             materialize(p, k, future)
@@ -95,8 +98,17 @@ def materialize(base, node, future):
             f.write(pcp.lcg_bytes(*node.gen))
 
 
+def set_atime(node, future):
+    node.atime = future
+    for k in node.kids or []:
+        set_atime(k, future)
+
+
 def set_meta(base, node, future):
     p = base + b"/" + node.name
+    if node.link:
+        set_atime(node, future)       # mode and times are those of the target, set there
+        return
     if node.kind == "d":
         for k in node.kids:
             set_meta(p, k, future)
@@ -369,6 +381,8 @@ def run_cases(ctx, exe, cases, cnt, var, cov, dist, distinct, nested=False):
             if toobig and not any(r.startswith("E:") for r in replies):
                 ctx.offender("isolation:unreported", "a file that could not be written (larger than the receiver's "
                              "file size limit) was not reported", cj)
+        if bads and os.environ.get("VERIF_C11_DEBUG"):
+            ctx.log("DEBUG spec line:", slines[i][:3000], "answer", sp[:300])
         if bads:
             dist["spec_failures"] += 1
             cj["discrepancies"] = [(p.decode("latin-1"), k) for p, k in bads[:12]]
@@ -463,10 +477,10 @@ def run_cases(ctx, exe, cases, cnt, var, cov, dist, distinct, nested=False):
                 node = dict((pa, n) for _, t in c["srcs"] for pa, n in walk(t, []))[c["conflict"][0]]
                 top = next(t for _, t in c["srcs"] if t.name == c["conflict"][0].split(b"/")[0])
                 sent = node.name if b"/" in c["conflict"][0] else dest_name(c, b"", top)
-                rec = b" %d " % node.gen[1] + sent + b"\n"
-                k = full.find(rec)
+                # the file's own control record (a directory of the same name has a `D` record with size 0)
+                mrec = re.search(rb"C[0-7]{4} %d " % node.gen[1] + re.escape(sent) + rb"\n", full)
+                k = mrec.end() if mrec else -1
                 if k >= 0:
-                    k += len(rec)
                     want = full[:k] + full[k + node.gen[1] + 1:]
                     if pcp.unhx(f["c2s"]) != want:
                         ctx.disagreement("pcp sender after an error reply", "the client did not skip exactly the data "
@@ -503,9 +517,38 @@ class Probe:
 
 def clone(node):
     n = Node(node.name, node.kind, node.mode, node.mtime, node.nsec, node.gen, None)
+    n.link = node.link
     if node.kind == "d":
         n.kids = [clone(k) for k in node.kids]
     return n
+
+
+def add_links(rng, c):
+    """-r sources with symbolic links: pcp_client.c uses stat(2), so a link to a file is copied as that file and a link to
+    a directory as that directory (contents and all), under the link's name.  The link node is a copy of its target."""
+    dirs = [n for _, t in c["srcs"] for _, n in walk(t, []) if n.kind == "d" and n.kids and not n.link]
+    n_links = 0
+    # all links of a case go into ONE directory and point to its entries (a link added inside a target later would
+    # also show through the link)
+    for d in rng.sample(dirs, min(len(dirs), 1)) * rng.choice([1, 1, 2]):
+        cand = [k for k in d.kids if not k.link and not has_links(k)]
+        if not cand:
+            continue
+        target = rng.choice(cand)
+        ln = clone(target)
+        ln.name = rng.choice([b"ln", b"link to", b"l.nk", b"zz"]) + b"%d" % n_links
+        if any(k.name == ln.name for k in d.kids):
+            continue
+        ln.link = target.name
+        d.kids.append(ln)
+        n_links += 1
+    c["links"] = n_links
+    c["conflict"] = c["overwrite"] = None
+    return c
+
+
+def has_links(node):
+    return bool(node.link) or any(has_links(k) for k in node.kids or [])
 
 
 def shrink_case(ctx, exe, c, sig, cnt, var):
@@ -582,11 +625,12 @@ def signature(c, bad, snap, expected):
 
 
 def describe(node):
+    lk = {"link": node.link.decode("latin-1")} if node.link else {}
     if node.kind == "f":
-        return {"name": node.name.decode("latin-1"), "mode": "%o" % node.mode, "mtime": node.mtime, "nsec": node.nsec,
-                "size": node.gen[1], "seed": node.gen[0]}
-    return {"name": node.name.decode("latin-1"), "mode": "%o" % node.mode, "mtime": node.mtime,
-            "kids": [describe(k) for k in node.kids]}
+        return dict({"name": node.name.decode("latin-1"), "mode": "%o" % node.mode, "mtime": node.mtime, "nsec": node.nsec,
+                     "size": node.gen[1], "seed": node.gen[0]}, **lk)
+    return dict({"name": node.name.decode("latin-1"), "mode": "%o" % node.mode, "mtime": node.mtime,
+                 "kids": [describe(k) for k in node.kids]}, **lk)
 
 
 def case_json(c):
@@ -599,8 +643,11 @@ def case_json(c):
 def from_json(j, k):
     def mk(d):
         if "kids" in d:
-            return Node(d["name"].encode("latin-1"), "d", int(d["mode"], 8), d["mtime"], kids=[mk(x) for x in d["kids"]])
-        return Node(d["name"].encode("latin-1"), "f", int(d["mode"], 8), d["mtime"], nsec=d.get("nsec", 0), gen=(d["seed"], d["size"]))
+            n = Node(d["name"].encode("latin-1"), "d", int(d["mode"], 8), d["mtime"], kids=[mk(x) for x in d["kids"]])
+        else:
+            n = Node(d["name"].encode("latin-1"), "f", int(d["mode"], 8), d["mtime"], nsec=d.get("nsec", 0), gen=(d["seed"], d["size"]))
+        n.link = d["link"].encode("latin-1") if d.get("link") else None
+        return n
     return dict(k=k, srcs=[(s["userdir"].encode("latin-1"), mk(s["tree"])) for s in j["sources"]], p=j["preserve"],
                 reverse=j["reverse"], host=j["host"].encode(), um=int(j["umask"], 8), dest=j["dest"].encode("latin-1"),
                 conflict=(j["conflict"][0].encode("latin-1"), j["conflict"][1]) if j.get("conflict") else None,
@@ -667,7 +714,7 @@ def run_e2e(ctx, cov, dist):
     for n in ("pdcp", "rpdcp"):
         if not os.path.lexists(os.path.join(bindir, n)):
             os.symlink(os.path.join(repo, "src/pdsh/pdsh"), os.path.join(bindir, n))
-    nruns = 7 if ctx.quick() else 60
+    nruns = 8 if ctx.quick() else 60
     future = int(time.time()) + 50000000
     dist["e2e_runs"] = 0
     for k in range(nruns):
@@ -690,7 +737,7 @@ def run_e2e(ctx, cov, dist):
         # the first runs pin the corners of the command-line rules: exactly two list entries (-y), one entry (no -y),
         # -p on and off in both directions, no -r for plain files
         plan = [dict(p=1, shape="emptydir"), dict(p=1, shape="any"), dict(p=0, shape="file"), dict(p=0, shape="any"),
-                dict(p=1, shape="two"), dict(p=1, shape="file"), dict(p=0, shape="twofiles-destfile")]
+                dict(p=1, shape="two"), dict(p=1, shape="file"), dict(p=0, shape="twofiles-destfile"), dict(p=0, shape="unreadable")]
         shape = "any"
         if k < len(plan):
             p, shape = plan[k]["p"], plan[k]["shape"]
@@ -699,6 +746,14 @@ def run_e2e(ctx, cov, dist):
         elif shape == "file":
             trees = [Node(b"file.txt", "f", 0o640, 1300000001, gen=(77, 10240))]
             r = 0
+        elif shape == "unreadable":
+            # a file the (unprivileged) user cannot read INSIDE a source directory: it may cost that file (or the run may
+            # be refused), but pdcp must terminate, say so, and every other file that arrives must be intact
+            reverse = False
+            trees = [Node(b"tree", "d", 0o755, 1300000000, kids=[
+                Node(b"a_first", "f", 0o644, 1300000001, gen=(71, 11)), Node(b"b_unreadable", "f", 0, 1300000002, gen=(72, 37)),
+                Node(b"c_last", "f", 0o644, 1300000003, gen=(73, 11)),
+                Node(b"d_sub", "d", 0o755, 1300000004, kids=[Node(b"inner", "f", 0o644, 1300000005, gen=(74, 5))])])]
         elif shape == "twofiles-destfile":
             # two plain files, and on ONE target the destination is an existing regular file: that target must be
             # reported and its file left alone, the other targets get both files (seeded change C11-3: -y rule)
@@ -713,7 +768,8 @@ def run_e2e(ctx, cov, dist):
             if all(t.kind == "f" for t in trees) and rng.random() < 0.5:
                 r = 0
         for t in trees:
-            tame(t)
+            if shape != "unreadable":
+                tame(t)
         bw = os.fsencode(w)
         roots = [bw + b"/" + h.encode() + b"/rsrc" for h in HOSTS3] if reverse else [bw + b"/src"]
         destfile_host = "h2" if shape == "twofiles-destfile" else None
@@ -745,13 +801,40 @@ def run_e2e(ctx, cov, dist):
         full = ["setpriv", "--reuid", "1000", "--regid", "1000", "--clear-groups"] + env + cmd
         cj = dict(e2e=True, command=" ".join(cmd), sources=[describe(t) for t in trees])
         try:
-            pr = subprocess.run(full, cwd=w, stdout=subprocess.PIPE, stderr=subprocess.PIPE, timeout=120)
+            pr = subprocess.run(full, cwd=w, stdout=subprocess.PIPE, stderr=subprocess.PIPE,
+                                timeout=10 if shape == "unreadable" else 120)
         except subprocess.TimeoutExpired:
+            if shape == "unreadable":
+                subprocess.run(["pkill", "-u", "1000", "-f", wrapper])
+                cov["evaluations"] += 1
+                dist["e2e_runs"] += 1
+                ctx.offender("e2e:unreadable-source-file-hangs", "pdcp -r of a directory that holds a file the user cannot "
+                             "read does not terminate (the `C` record is sent, the data cannot be, the receiver waits for "
+                             "it and takes the following records for it): " + " ".join(cmd), cj)
+                shutil.rmtree(w, ignore_errors=True)
+                continue
             ctx.offender("timeout", "pdcp/rpdcp end to end run hangs: " + " ".join(cmd), cj)
             continue
         cov["evaluations"] += 1
         dist["e2e_runs"] += 1
         cj["rc"], cj["stderr"] = pr.returncode, pr.stderr.decode("latin-1")[-400:]
+        if shape == "unreadable":
+            if b"b_unreadable" not in pr.stderr:
+                ctx.offender("e2e:unreported", "a source file that cannot be read was not reported: rc=%d %s" % (
+                    pr.returncode, pr.stderr.decode("latin-1")[-200:]), cj)
+            for h in HOSTS3:
+                snap = pcp.snapshot(os.path.join(w, h, "dst"))
+                for path, r_ in snap.items():
+                    node = dict(walk(trees[0], [])).get(path)
+                    if r_["kind"] == "f" and (node is None or (r_["data"] != pcp.lcg_bytes(*node.gen) and not (
+                            node.name == b"b_unreadable" and r_["data"] == b""))):
+                        ctx.offender("e2e:fidelity", "target %s: %r arrived damaged next to a source file that cannot be "
+                                     "read" % (h, path), dict(cj, target=h))
+            dist["e2e_unreadable_source"] = "terminates, rc=%d, %s" % (
+                pr.returncode, "nothing copied" if len(pcp.snapshot(os.path.join(w, HOSTS3[0], "dst"))) <= 1
+                else "the other files copied")
+            shutil.rmtree(w, ignore_errors=True)
+            continue
         if destfile_host:
             kept = os.path.isfile(os.path.join(w, destfile_host, "dst")) and \
                 open(os.path.join(w, destfile_host, "dst"), "rb").read() == b"precious data in a plain file called dst\n"
@@ -837,17 +920,23 @@ def gen_multi(rng, k):
         # forced interleaving of two _error() calls: receiver a is parked inside its first one until receiver b
         # has been through one of its own
         c["race"] = tuple(rng.sample(sorted(errhosts), 2))
+    c["urace"] = None
+    if not c["race"] and not c["p"] and c["um"] and rng.random() < 0.4:
+        # forced interleaving of the umask(2) calls at the start of two receivers (A reads, B reads A's temporary 0,
+        # A restores, B "restores" 0): the process-wide umask stays 0
+        c["urace"] = tuple(rng.sample(range(K), 2))
     return c
 
 
 def multi_corpus(k0):
     """pinned: two hosts, one refused file each; once plainly interleaved, once with overlapping _error() calls"""
     out = []
-    for race in (None, (0, 1), (1, 0)):
+    for race, urace in ((None, None), ((0, 1), None), ((1, 0), None), (None, (0, 1)), (None, (1, 0))):
         conns = [dict(host=h, files=[(n, 20 + i, 0o644, 1234567890 + i, 7 * i + j) for i, n in enumerate((b"f1", b"f2", b"f3"))],
-                      blocked=[bl], dir=False, dirblocked=False, senddata=False, overwrite=False)
+                      blocked=[bl], dir=bool(urace), dirblocked=False, senddata=False, overwrite=False)
                  for j, (h, bl) in enumerate(((b"h1", b"f1"), (b"h2", b"f2")))]
-        out.append(dict(k=k0 + len(out), multi=True, p=0, um=0o22, conns=conns, cut="records", race=race))
+        out.append(dict(k=k0 + len(out), multi=True, p=0, um=0o27 if urace else 0o22, conns=conns, cut="records", race=race,
+                        urace=urace))
     return out
 
 
@@ -893,6 +982,7 @@ def multi_ents(c):
 
 def multi_json(c):
     return dict(multi=True, preserve=c["p"], umask="%o" % c["um"], cut=c["cut"], race=list(c["race"]) if c.get("race") else None,
+                umask_race=list(c["urace"]) if c.get("urace") else None,
                 conns=[dict(host=cn["host"].decode(), files=[[f[0].decode("latin-1")] + list(f[1:]) for f in cn["files"]],
                             blocked=[b.decode("latin-1") for b in cn["blocked"]], dir=cn["dir"],
                             dirblocked=cn["dirblocked"], senddata=cn["senddata"], overwrite=cn["overwrite"])
@@ -902,6 +992,7 @@ def multi_json(c):
 def multi_from_json(j, k):
     return dict(k=k, multi=True, p=int(j["preserve"]), um=int(j["umask"], 8), cut=j["cut"],
                 race=tuple(j["race"]) if j.get("race") else None,
+                urace=tuple(j["umask_race"]) if j.get("umask_race") else None,
                 conns=[dict(host=cn["host"].encode(), files=[tuple([f[0].encode("latin-1")] + f[1:]) for f in cn["files"]],
                             blocked=[b.encode("latin-1") for b in cn["blocked"]], dir=cn["dir"],
                             dirblocked=cn["dirblocked"], senddata=cn["senddata"], overwrite=cn["overwrite"])
@@ -917,7 +1008,7 @@ def run_multi(ctx, exe, cases, cnt, var, cov, dist):
     jbase = os.path.join(ctx.scratch, "jails_multi")
     shutil.rmtree(jbase, ignore_errors=True)
     os.makedirs(jbase)
-    ops, mlines, index = [], [], []
+    ops, mlines, index, mlines0, index0 = [], [], [], [], []
     for c in cases:
         ents = multi_ents(c)
         c["ents"] = ents
@@ -927,7 +1018,7 @@ def run_multi(ctx, exe, cases, cnt, var, cov, dist):
         streams = [multi_stream(c, cn) for cn in c["conns"]]
         ops.append(["multi %s /%s %d 1 %o %d %s %s" % (j, CWD.decode(), c["p"], c["um"], len(streams), " ".join(
             "%s %s" % (hx(b"dest"), ",".join(hx(x) for x in chunks)) for chunks in streams),
-            "%d:%d" % c["race"] if c.get("race") else "-")])
+            "%d:%d" % c["race"] if c.get("race") else "u%d:%d" % c["urace"] if c.get("urace") else "-")])
         index.append((c, None))
         mc = dict(p=c["p"], y=1, um=c["um"], dest=b"dest", stream=b"")
         mlines.append(c12_model_line(mc, ents, cnt, var))
@@ -938,12 +1029,18 @@ def run_multi(ctx, exe, cases, cnt, var, cov, dist):
             ops.append(["sink %s /%s %s %d 1 %o 0 0 %s" % (js, CWD.decode(), hx(b"dest"), c["p"], c["um"], hx(s))])
             index.append((c, i))
             mlines.append(c12_model_line(dict(mc, stream=s), ents, cnt, var))
+            if c.get("urace"):
+                # what the receivers would do with the process-wide umask left at 0
+                mlines0.append(c12_model_line(dict(mc, stream=s, um=0), ents, cnt, var))
+                index0.append((c, i))
     t0 = int(time.time())
     impl = run_batch([exe], ops, timeout=1800, env=dict(os.environ, ASAN_OPTIONS="detect_leaks=0"))
-    mans = ctx.model("pcp", "".join(l + "\n" for l in mlines), timeout=1800)
-    res = {}
+    mans = ctx.model("pcp", "".join(l + "\n" for l in mlines + mlines0), timeout=1800)
+    res, res0 = {}, {}
     for (c, i), (ans, crash), ml in zip(index, impl, mans):
         res.setdefault(c["k"], {})[i] = (pcp.fields(ans[0]) if ans else {}, crash, pcp.parse_model(ml))
+    for (c, i), ml in zip(index0, mans[len(mlines):]):
+        res0.setdefault(c["k"], {})[i] = pcp.parse_model(ml)
     for c in cases:
         cov["evaluations"] += 1
         dist["multi_cases"] = dist.get("multi_cases", 0) + 1
@@ -1021,10 +1118,81 @@ def run_multi(ctx, exe, cases, cnt, var, cov, dist):
             dist["multi_errors_on_2+_connections"] = dist.get("multi_errors_on_2+_connections", 0) + 1
         if bad:
             continue
-        diffs = pcp.compare_fs(merged, pcp.snapshot(c["jail"]), t0)
+        snap = pcp.snapshot(c["jail"])
+        diffs = pcp.compare_fs(merged, snap, t0)
+        if c.get("urace") and f.get("parked") == "1":
+            dist["multi_umask_races"] = dist.get("multi_umask_races", 0) + 1
+        if diffs and c.get("urace") and f.get("parked") == "1":
+            # the narrow class of F11-UMASK-RACE: everything is exactly what the receivers create with umask 0
+            merged0 = dict(minit["fs"])
+            for i in range(len(c["conns"])):
+                for path, v in res0[c["k"]][i]["fs"].items():
+                    if v != minit["fs"].get(path):
+                        merged0[path] = v
+            if not pcp.compare_fs(merged0, snap, t0):
+                dist["multi_umask_races_umask_lost"] = dist.get("multi_umask_races_umask_lost", 0) + 1
+                ctx.offender("independent:umask-race-files-created-with-umask-0",
+                             "the umask(2) calls at the start of two receivers of one process interleaved (receiver %d: "
+                             "mask = umask(0); receiver %d: mask = umask(0) reads that 0; %d restores; %d restores 0): the "
+                             "process-wide umask stays 0, files and directories are created with the permission bits the "
+                             "umask %03o should have removed: %s" % (c["urace"][0], c["urace"][1], c["urace"][0],
+                                                                    c["urace"][1], c["um"], "; ".join(diffs[:3])), cj)
+                continue
         if diffs:
             ctx.disagreement("pcp multi fs", "; ".join(diffs[:5]), cj)
     shutil.rmtree(jbase, ignore_errors=True)
+
+
+def run_refused_sources(ctx, exe, cov, dist):
+    """-r sources pcp_client.c refuses: pcp_expand_dirs/_rexpand_dir use stat(2) and end the client (errx) on anything that
+    is neither a regular file nor a directory and on a link that points nowhere -- BEFORE the first byte is sent.
+    Stated, not modelled (the model's trees hold files and directories): the client exits non-zero naming the entry,
+    sends nothing, the receiver gets the end of input after its greeting and the destination is untouched."""
+    for kind in ("fifo", "dangling-link", "socket", "link-to-fifo"):
+        sdir = os.path.join(ctx.scratch, "refused_src")
+        j = os.path.join(ctx.scratch, "refused_jail")
+        for d in (sdir, j):
+            shutil.rmtree(d, ignore_errors=True)
+        os.makedirs(os.path.join(sdir, "top", "sub"))
+        with open(os.path.join(sdir, "top", "a_file"), "w") as f:
+            f.write("regular\n")
+        odd = os.path.join(sdir, "top", "sub", "odd")
+        if kind == "fifo":
+            os.mkfifo(odd)
+        elif kind == "dangling-link":
+            os.symlink("nowhere", odd)
+        elif kind == "socket":
+            import socket
+            sk = socket.socket(socket.AF_UNIX)
+            sk.bind(odd)
+            sk.close()
+        else:
+            os.mkfifo(os.path.join(sdir, "top", "sub", "pipe"))
+            os.symlink("pipe", odd)
+        ents = [Ent(b"", "d", 0o755, OLD), Ent(b"o", "d", 0o755, OLD + 1), Ent(b"o/w", "d", 0o755, OLD + 3),
+                Ent(b"o/w/dest", "d", 0o755, OLD + 7), Ent(b"o/w/dest/keep", "f", 0o600, OLD + 8, b"keep")]
+        pcp.build_jail(j, ents)
+        op = "rt %s /o/w %s 0 1 22 0 %s 0 %s %s" % (j, hx(b"dest"), sdir, hx(b"h"), hx(b"top"))
+        (ans, crash), = run_batch([exe], [[op]], env=dict(os.environ, ASAN_OPTIONS="detect_leaks=0"))
+        f = pcp.fields(ans[0]) if ans else {}
+        cj = dict(refused_source=kind)
+        cov["evaluations"] += 1
+        dist["refused_source_kinds"] = dist.get("refused_source_kinds", 0) + 1
+        if crash is not None or "crc" not in f:
+            ctx.disagreement("pcp harness", "refused source: harness failed: %s" % str(ans)[:200], cj)
+            continue
+        errtxt = pcp.unhx(f["err"])
+        snap = pcp.snapshot(j)
+        changed = pcp.changed_paths({e.path: e for e in ents}, snap, int(time.time()))
+        if f["san"] != "0" or f["csig"] != "0" or f["ssig"] != "0":
+            ctx.offender("crash", "a source that is %s: client/server crash: %s" % (kind, errtxt[-200:]), cj)
+        elif f["crc"] == "0" or f["c2slen"] != "0" or b"odd" not in errtxt and b"pipe" not in errtxt or changed:
+            ctx.offender("refused-source:not-refused-cleanly",
+                         "a -r source tree holding a %s: expected the client to end before sending anything, naming the "
+                         "entry, destination untouched; got client rc=%s, %s bytes sent, stderr %r, changed %r" % (
+                             kind, f["crc"], f["c2slen"], errtxt[-150:], changed[:4]), cj)
+        for d in (sdir, j):
+            shutil.rmtree(d, ignore_errors=True)
 
 
 def probe_sender(ctx, exe):
@@ -1106,8 +1274,14 @@ def run(ctx):
                 mcases.append(multi_from_json(rc, 0))
         cases += corpus(len(cases))
         cases += [gen_case(rng, len(cases) + i, ctx.quick()) for i in range(n)]
+        import random
+        rng2 = random.Random(ctx.seed * 104729 + 5)         # own stream: the cases above stay what they were
+        lcases = [add_links(rng2, gen_case(rng2, len(cases) + i, ctx.quick())) for i in range(40 if ctx.quick() else 600)]
+        cases += lcases
+        dist["cases_with_symlinks_in_sources"] = sum(1 for c in lcases if c["links"])
         for i in range(0, len(cases), 500):
             run_cases(ctx, exe, cases[i:i + 500], cnt, var, cov, dist, distinct)
+        run_refused_sources(ctx, exe, cov, dist)
         mcases += multi_corpus(len(mcases))
         mcases += [gen_multi(rng, len(mcases) + i) for i in range(40 if ctx.quick() else 800)]
         for i in range(0, len(mcases), 200):
@@ -1115,6 +1289,9 @@ def run(ctx):
         ctx.log("receivers in one process: %d cases, %d with errors on >= 2 connections, %d with two overlapping "
                 "_error() calls" % (dist.get("multi_cases", 0), dist.get("multi_errors_on_2+_connections", 0),
                                     dist.get("multi_overlapping_errors", 0)))
+        dist["umask_variant"] = ("_sink reads and restores the process-wide umask (umask(0); umask(mask)): two receivers "
+                                 "starting at the same time can leave it at 0" if dist.get("multi_umask_races") else
+                                 "no umask(2) call without -p")
         dist["error_stream_variant"] = ("shared by all receivers of the process (static FILE *fp): overlapping _error() calls "
                                         "cross-route" if dist.get("multi_overlapping_errors_cross_routed") else
                                         "per call: overlapping _error() calls keep their own connection")
@@ -1128,6 +1305,8 @@ def run(ctx):
         LEVEL, cov,
         assumptions=["sources do not change while they are copied; source paths shorter than MAXPATHLEN, records shorter "
                      "than BUFSIZ (names <= NAME_MAX)", "source modification times are non-negative",
+                     "sources hold regular files, directories and symbolic links to those (stat(2) is followed: generated); any other "
+                     "entry ends the client before it sends anything (pinned cases: fifo, socket, dangling link, link to a fifo)",
                      "client and server run as root: no permission failures; I/O errors only as injected write faults "
                      "(receiver under RLIMIT_FSIZE)",
                      "each target is served by the same client code on its own connection; the receivers of several targets "
